@@ -200,9 +200,8 @@ func runC08(p *Program, r *Result) {
 			if calleeName(c.Common()) != se.String() {
 				continue
 			}
-			arg := short(rtb.Term(c.Common().Args[1]).String())
-			if !strings.HasSuffix(arg, "Read$2()") {
-				continue
+			if !p.mayBeEOF(rtb, c.Common().Args[1], 0) {
+				continue // only the end-of-armor drain can yield io.EOF
 			}
 			facts := rtb.FactsAt(c.Block())
 			_, short47 := findFact(facts, func(a Atom) bool {
@@ -219,20 +218,22 @@ func runC08(p *Program, r *Result) {
 		r.Check(okShort, rd.String(), "short-line:footer", "", "after a short line the next line must be the footer", "a short body line is not required to be followed by exactly the footer line")
 		// trailing data: EOF only under all-whitespace and below the bound
 		okTrail := false
-		for _, a := range AnonFuncs(rd) {
-			atb := p.TB(a)
-			for _, ret := range returnsOf(a) {
-				if len(ret.Results) != 1 || short(atb.Term(ret.Results[0]).String()) != "io.EOF" {
-					continue
-				}
-				facts := atb.FactsAt(ret.Block())
-				_, ws := findFact(facts, func(x Atom) bool {
-					return x.Kind == "cmp" && x.Op == "==" && x.Y.S == "0" && strings.HasPrefix(short(x.X.String()), "len(bytes.TrimSpace(")
-				})
-				_, bound := findFact(facts, func(x Atom) bool {
-					return x.Kind == "cmp" && x.Op == "!=" && x.Y.S == "1024"
-				})
+		nEOF := 0
+		for _, pr := range p.producersOf(rd, isEOFValue) {
+			if pr.Kind == "store" {
+				continue
+			}
+			nEOF++
+			_, ws := findFact(pr.Facts, func(x Atom) bool {
+				return x.Kind == "cmp" && x.Op == "==" && x.Y.S == "0" && strings.HasPrefix(short(x.X.String()), "len(bytes.TrimSpace(")
+			})
+			_, bound := findFact(pr.Facts, func(x Atom) bool {
+				return x.Kind == "cmp" && x.Op == "!=" && x.Y.S == "1024"
+			})
+			if nEOF == 1 {
 				okTrail = ws && bound
+			} else {
+				okTrail = okTrail && ws && bound
 			}
 		}
 		r.Check(okTrail, rd.String(), "trailing", "", "clean end only if the rest is whitespace and shorter than the bound", "trailing data after the footer is not restricted to bounded whitespace")
@@ -295,8 +296,7 @@ func runC08(p *Program, r *Result) {
 		if calleeName(c.Common()) != se.String() {
 			continue
 		}
-		arg := short(rtb.Term(c.Common().Args[1]).String())
-		if !strings.HasSuffix(arg, "Read$2()") {
+		if !p.mayBeEOF(rtb, c.Common().Args[1], 0) {
 			continue
 		}
 		facts := rtb.FactsAt(c.Block())
